@@ -1,11 +1,13 @@
 import HdVerif.Proofs.Affine
 import HdVerif.Generated.T13w
+import HdVerif.Generated.TC10s
 import HdVerif.Proofs.AffineTie
 import HdVerif.Proofs.AffinePairs
 import HdVerif.Proofs.AffineRound
 import HdVerif.Proofs.AffineCalls
 import HdVerif.Proofs.AffineImage
 import HdVerif.Proofs.AffineExtra
+import HdVerif.Proofs.AffineTie2
 /-! # C10  Coordinate transforms are mutually consistent and invertible
 
 Property theorems only (helper lemmas live in `Proofs/Affine.lean`).  The statements are about the model
@@ -878,11 +880,33 @@ theorem for_image_inverse_of_frame {ds : ImageDs} {tf : TiledFull} {P : Plane} {
           P.oriL (.seq [P.sr, P.sc]) (sbs.getD 1) :=
   forImage_inverse_of_frame h ch pl tr tc hch hpl htr htc
 
-/-- **frame numbers outside `1 … frames` are refused** -/
-theorem for_image_frame_out_of_range_refused {ds : ImageDs} {tf : TiledFull} {P : Plane} {z sbs : Option Rat}
-    (h : TiledSlide ds tf P z sbs) (f : Int) (hf : f < 1 ∨ (tf.frames : Int) < f) :
-    ∃ e, getSpatialInformation ds (some f) false = .error e :=
-  spatialInfo_tiled_out_of_range h f hf
+/-- **a frame number below 1 is refused by EVERY multi-frame image** (IndexError, the error a number beyond the last frame gives), tiled or
+not.  Defect C10-frame-number-lower-bound, repaired in /repo: before the fix `PerFrameFunctionalGroupsSequence[frame_number - 1]` made frame
+number 0 answer with the LAST frame's plane, −1 with the one before, … (the bound `Gen.firstFrameNumber` is regenerated, TC10g). -/
+theorem for_image_nonpositive_frame_refused (ds : ImageDs) (c : Coord) (hc : ds.coord = some c) (hm : ds.multiframe = true) (f : Int)
+    (hf : f < 1) : getSpatialInformation ds (some f) false = .error .index :=
+  spatialInfo_nonpositive_refused ds c hc hm f hf
+
+/-- **TILED_FULL: a frame number is refused iff it lies outside `1 … frames`** (`frames = channels · focal planes · tiles`) -/
+theorem for_image_tiled_frame_refused_iff {ds : ImageDs} {tf : TiledFull} {P : Plane} {z sbs : Option Rat}
+    (h : TiledSlide ds tf P z sbs) (f : Int) :
+    (∃ e, getSpatialInformation ds (some f) false = .error e) ↔ (f < 1 ∨ (tf.frames : Int) < f) :=
+  spatialInfo_tiled_refused_iff h f
+
+/-- **multi-frame image with per-frame groups: every frame number outside `1 … n` is an IndexError** (n = number of per-frame items;
+any coordinate system, whatever the groups hold) … -/
+theorem for_image_per_frame_outside_refused (ds : ImageDs) (c : Coord) (hc : ds.coord = some c) (hm : ds.multiframe = true)
+    (ht : ds.tiledFull = none) (f : Int) (hf : f < 1 ∨ (ds.perFrame.length : Int) < f) :
+    getSpatialInformation ds (some f) false = .error .index :=
+  spatialInfo_per_frame_outside_refused ds c hc hm ht f hf
+
+/-- … **and refused iff outside** when every per-frame item carries its plane -/
+theorem for_image_per_frame_refused_iff (ds : ImageDs) (hc : ds.coord = some .patient) (hm : ds.multiframe = true)
+    (ht : ds.tiledFull = none) (hs1 : ds.shared.measures = none) (hs2 : ds.shared.posPatient = none)
+    (hs3 : ds.shared.oriPatient = none)
+    (hall : ∀ g ∈ ds.perFrame, g.measures.isSome = true ∧ g.posPatient.isSome = true ∧ g.oriPatient.isSome = true) (f : Int) :
+    (∃ e, getSpatialInformation ds (some f) false = .error e) ↔ (f < 1 ∨ (ds.perFrame.length : Int) < f) :=
+  spatialInfo_per_frame_refused_iff ds hc hm ht hs1 hs2 hs3 hall f
 
 /-- **per-frame groups: frame `k` gets its OWN position, orientation, pixel spacing and slice spacing** (seeded R3C10-3: orientation read
 from frame 0) -/
@@ -944,6 +968,12 @@ def exLocalizer : ImageDs :=
     perFrame := [{ measures := some ([1, 1], some 2), posPatient := some [0, 0, 0], oriPatient := some [1, 0, 0, 0, 1, 0] },
                  { measures := some ([1 / 2, 3], none), posPatient := some [5, 6, 7], oriPatient := some [0, 1, 0, 0, 0, 1] }] }
 example : getSpatialInformation exLocalizer (some 2) false = .ok ([5, 6, 7], [0, 1, 0, 0, 0, 1], [1 / 2, 3], none) := by decide +kernel
+example : getSpatialInformation exLocalizer (some 0) false = .error .index ∧ getSpatialInformation exLocalizer (some (-1)) false = .error .index ∧
+    getSpatialInformation exLocalizer (some 3) false = .error .index :=
+  ⟨for_image_per_frame_outside_refused exLocalizer .patient rfl rfl rfl 0 (Or.inl (by decide)),
+   for_image_per_frame_outside_refused exLocalizer .patient rfl rfl rfl (-1) (Or.inl (by decide)),
+   for_image_per_frame_outside_refused exLocalizer .patient rfl rfl rfl 3 (Or.inr (by decide))⟩
+example : ∀ g ∈ exLocalizer.perFrame, g.measures.isSome = true ∧ g.posPatient.isSome = true ∧ g.oriPatient.isSome = true := by decide
 
 
 /-! ## PATIENT vs SLIDE coordinate system (`get_image_coordinate_system`) -/
@@ -951,27 +981,30 @@ example : getSpatialInformation exLocalizer (some 2) false = .ok ([5, 6, 7], [0,
 /-- **SLIDE iff** the image has a frame of reference and one of the slide markers (`ImageOrientationSlide`,
 `ImageCenterPointCoordinatesSequence`; list regenerated, TC10g) - also when patient positions are present.  Tie C: `coordinate_system` stream. -/
 theorem coordinate_system_slide_iff (d : CoordInput) :
-    imageCoordinateSystem d = some .slide ↔
+    imageCoordinateSystem d = .ok (some .slide) ↔
       d.present.contains "FrameOfReferenceUID" = true ∧
       (d.present.contains "ImageOrientationSlide" = true ∨ d.present.contains "ImageCenterPointCoordinatesSequence" = true) :=
   imageCoordinateSystem_slide_iff d
 
 /-- **PATIENT iff** frame of reference, no slide marker, and an image position at the root or in the FIRST item of the shared / per-frame
-functional groups; everything else has no coordinate system (and therefore no transformers: `for_image_rules`) -/
-theorem coordinate_system_patient_iff (d : CoordInput) :
-    imageCoordinateSystem d = some .patient ↔
+functional groups (no functional-group sequence that is empty where `[0]` is taken: those raise IndexError in code and model);
+everything else has no coordinate system (and therefore no transformers: `for_image_rules`) -/
+theorem coordinate_system_patient_iff (d : CoordInput) (he : d.emptyAtFirstItem = []) :
+    imageCoordinateSystem d = .ok (some .patient) ↔
       d.present.contains "FrameOfReferenceUID" = true ∧
       d.present.contains "ImageOrientationSlide" = false ∧ d.present.contains "ImageCenterPointCoordinatesSequence" = false ∧
       (d.present.contains "ImagePositionPatient" = true ∨
         (d.present.contains "SharedFunctionalGroupsSequence" = true ∧ d.firstItemHasPatientPosition.contains "SharedFunctionalGroupsSequence" = true) ∨
         (d.present.contains "PerFrameFunctionalGroupsSequence" = true ∧ d.firstItemHasPatientPosition.contains "PerFrameFunctionalGroupsSequence" = true)) :=
-  imageCoordinateSystem_patient_iff d
+  imageCoordinateSystem_patient_iff d he
 
-example : imageCoordinateSystem ⟨["FrameOfReferenceUID", "ImageOrientationSlide", "ImagePositionPatient"], []⟩ = some .slide := by decide
-example : imageCoordinateSystem ⟨["FrameOfReferenceUID", "PerFrameFunctionalGroupsSequence"], ["PerFrameFunctionalGroupsSequence"]⟩ = some .patient := by
-  decide
-example : imageCoordinateSystem ⟨["ImagePositionPatient"], []⟩ = none := by decide
-
+example : imageCoordinateSystem ⟨["FrameOfReferenceUID", "ImageOrientationSlide", "ImagePositionPatient"], [], []⟩ = .ok (some .slide) := by decide
+example : imageCoordinateSystem ⟨["FrameOfReferenceUID", "PerFrameFunctionalGroupsSequence"], ["PerFrameFunctionalGroupsSequence"], []⟩
+    = .ok (some .patient) := by decide
+example : imageCoordinateSystem ⟨["ImagePositionPatient"], [], []⟩ = .ok none := by decide
+/-- an empty SharedFunctionalGroupsSequence cannot be searched: IndexError, as in the source (`fgs[0]`) -/
+example : imageCoordinateSystem ⟨["FrameOfReferenceUID", "SharedFunctionalGroupsSequence"], [], ["SharedFunctionalGroupsSequence"]⟩
+    = .error .index := by decide
 
 /-! ## image-to-image inverse pairs; the regenerated tables are consistent -/
 
@@ -1008,5 +1041,27 @@ theorem spatial_tables_consistent :
     Gen.iterDefaultSliceSpacing = 1 ∧ Gen.iterDefaultZ = Gen.totalMatrixDefaultZ ∧ Gen.iterDefaultFocalPlanes = 1 ∧
     Gen.iterLoopNest = ["channel", "slice_index", "tile"] :=
   spatialTables_consistent
+
+
+/-- `create_affine_matrix_from_attributes`: the required lengths of its sequence arguments, the index directions it refuses (`L`, `U`)
+and the arguments of its `create_rotation_matrix` call (the NORMALISED convention, handedness, slices_first, both spacings) are the
+source's (bridge, target TC10g, `Proofs/AffineTie2.lean`) -/
+theorem tie_affine_from_attributes (pos ori : List Rat) (ps : Spacing) (sbs : Rat) (conv : List Char) (sf rh : Bool) :
+    affineFromAttributes pos ori ps sbs conv sf rh = affineFromAttributesSrc pos ori ps sbs conv sf rh :=
+  affineFromAttributes_uses_source pos ori ps sbs conv sf rh
+
+example : affineFromAttributesSrc exPlane.posL exPlane.oriL exPlane.ps 2 ['D', 'R'] true false
+    = affineFromAttributes exPlane.posL exPlane.oriL exPlane.ps 2 ['D', 'R'] true false ∧
+    (affineFromAttributesSrc exPlane.posL exPlane.oriL exPlane.ps 2 ['D', 'R'] true false).isOk = true ∧
+    affineFromAttributesSrc exPlane.posL exPlane.oriL exPlane.ps 2 ['L', 'D'] false true = .error .value := by decide +kernel
+
+
+/-- **no hidden state between requests**: the table of statements of `spatial.py` (all 55 functions and methods, regenerated on every
+run, target TC10s) through which a function could remember something from an earlier call - a `global` statement, a store into a
+module-level name or a class, a mutating method call on one, a caching decorator - is empty.  With it, a transformer built `for_image`
+depends only on the attributes the dataset has at that moment (seeded R2C10-3, R5C10-3: frame positions memoised by SOP Instance UID;
+the `history` stream is the matching oracle). -/
+theorem no_hidden_module_state : Gen.moduleStateWrites = [] ∧ Gen.moduleStateScanned = 55 := by
+  decide
 
 end HdVerif.C10
